@@ -15,7 +15,7 @@ RULE = ('(a) process programs with waits x sequences of K<=3 (thorough 4) of {pa
         'non-trivial when a wake-up and a pause/play were both delivered')
 ASSUMPTIONS = ['liveness restated as bounded progress at quiescence (deterministic single-threaded loop, no timers)',
                'first accepted resume(v) of a wait defines the expected continuation argument']
-REQUIRED = ['wakeups', 'pause_or_play', 'quiescence_checks', 'wakeup_phase/pausing', 'wakeup_phase/paused', 'wc_runs', 'plain_runs', 'continuations_checked']
+REQUIRED = ['stepping_task_cancelled_in_wait', 'kill_withdrawn_runs', 'wakeups', 'pause_or_play', 'quiescence_checks', 'wakeup_phase/pausing', 'wakeup_phase/paused', 'wc_runs', 'plain_runs', 'continuations_checked']
 BOUNDS = {'quick': 'plain: 5 wait programs, K<=3 (K=3 sampled); workchains: n<=2 awaitables exhaustive grid, n=3 sampled',
           'thorough': 'plain K<=4 sampled wider, 20 random wait programs; workchains n<=3, K<=3 pause/play'}
 ALPHA_PLAIN = [['pause', 'p'], ['play'], ['resume', ['v']], ['resume', None]]
@@ -60,6 +60,13 @@ def gen_cases(tier, seed):
                 plist.append(kw + [{'at': s1, 'act': ['resume', ['late']]}])
             plist.append([kw[0], {'at': s0, 'act': ['resume', ['between']]}, kw[1]])
             plist.append([{'at': s0, 'act': ['resume', ['before']]}] + kw)
+        # whoever drives the process gives up (the stepping task is cancelled, e.g. by a timeout around step_until_terminated) and
+        # a new stepping task is started later: a wake-up before, between or after the two is not lost
+        for s0 in range(0, ns + 1):
+            ab = [{'at': s0, 'act': ['abort_task']}, {'at': 'q', 'act': ['restart_task']}]
+            plist.append(ab + [{'at': 'q', 'act': ['resume', ['after-restart']]}])
+            plist.append([ab[0], {'at': 'q', 'act': ['resume', ['while-undriven']]}, ab[1]])
+            plist.append([{'at': s0, 'act': ['pause', 'p']}] + ab + [{'at': 'q', 'act': ['resume', ['paused']]}, {'at': 'q', 'act': ['play']}])
         for i, plan in enumerate(plist):
             yield {'kind': 'plain', 'name': name, 'program': prog, 'plan': plans.uniq(plan, 'q%d' % i), 'drain': True, 'listener': True}
     # (b) workchains
@@ -111,6 +118,15 @@ def run_case(case):
                 obs['kill_carried_out'] = 1
             else:
                 obs['kill_withdrawn_runs'] = 1
+        if any(e['act'][0] == 'abort_task' for e in case['plan']):
+            ab = next((a for a in rec['acts'] if a['kind'] == 'abort_task'), None)
+            if ab is None or not ab['phase'].startswith('waiting/stepping') or 'paus' in ab['phase']:
+                # the task was not blocked in the wait when it was cancelled (a step cancelled half way is run again: not a matter
+                # of wake-ups)
+                viol = []
+                obs['abort_elsewhere'] = 1
+            else:
+                obs['stepping_task_cancelled_in_wait'] = 1
         obs['plain_runs'] = 1
         obs['continuations_checked'] = sum(1 for e in rec['events'] if e[0] == 'trace' and e[1] == 'enter')
         wk = ('resume',)
